@@ -707,7 +707,7 @@ example : ∀ t, t < 3 → t ∈ [2, 7, 0, 0, 1] := by decide
 
 -- end-to-end theorems: a concrete request satisfying every hypothesis (incl. the byte-layer ones) on the
 -- driver's own test file `mkFile`: 3x2 little-endian u2 array at offset 4, request `[1:, 1]`
-def exCfg : Cfg := ⟨false, false, .F, 2, 4, 18, [3, 2]⟩
+def exCfg : Cfg := { persist := false, mmap := false, order := .F, isz := 2, off := 4, flen := 18, shape := [3, 2] }
 def exReq : SReq :=
   ⟨[.slice ⟨some 1, none, none⟩, .int 1],
    ⟨[⟨10, 6⟩], [3], [.slice ⟨some 1, some 3, some 1⟩]⟩, [2], [4, 5]⟩
